@@ -63,20 +63,21 @@ static inline void perturb_point()
 //   when  pre  = before the __sync builtin, post = after it, wake = pthread_cond_wait on the inner
 //         Signal of a FastSignal has returned (the woken thread then behaves like a thread that is
 //         slow to re-acquire the mutex: it unlocks it, runs the action, locks it again),
-//         bcast = pthread_cond_broadcast (end of Signal::set) has returned; obj enq, deq or fut (the
-//         Signal of a Future)
+//         bcast = pthread_cond_broadcast (in Signal::set) has returned; obj enq, deq or fut (the
+//         Signal of a Future); prebc = the thread is about to call pthread_cond_broadcast;
+//         job = a started function begins to run (obj fut, operand = its work code)
 //   obj   enq deq (FastSignal::_state resp. its Signal's condition variable), head tail (queue
 //         counters), nhead ntail (a slot's tickets), pushed processed, fut (anything else), *
 //   opnd  operand of the builtin (swap value, CAS new value) or *;  res: its result (post) or *
 //   count how many matching passages trigger the action; then the rule is spent
-// Actions: hold <slot> (wait until the slot is released), release <slot>,
+// Actions: hold <slot> [<timeout us>] (wait until the slot is released, at most the timeout), release <slot>,
 // sleep <us> [<permille>] (a targeted delay, taken with the given probability, default always),
 // await <slot> <n> (wait until n threads have been captured by holds on the slot),
 // slept <obj> <n> (wait until n threads have entered pthread_cond_wait of enq/deq since the mark).
 // Every wait gives up silently after G_TIMEOUT_US, so a gate can delay a case but never hang it.
 enum { G_MAXRULES = 32, G_MAXSLOTS = 8, G_TIMEOUT_US = 2000000 };
 enum { O_ANY = 0, O_ENQ, O_DEQ, O_HEAD, O_TAIL, O_PUSHED, O_PROCESSED, O_NHEAD, O_NTAIL, O_FUT, O_COUNT };
-enum { W_PRE = 1, W_POST = 2, W_WAKE = 3, W_BCAST = 4 };
+enum { W_PRE = 1, W_POST = 2, W_WAKE = 3, W_BCAST = 4, W_PREBC = 5, W_JOB = 6 };
 enum { A_NONE = 0, A_HOLD, A_RELEASE, A_SLEEP, A_AWAIT, A_SLEPT };
 struct Rule {
   volatile int active;
@@ -134,12 +135,13 @@ static int classify_cond(const void* c)
   return 0;
 }
 
-#define GATE_WAIT(cond) do { \
+#define GATE_WAIT_T(cond, limit_us) do { \
     long long t0_ = raw_us(); int spins_ = 0; \
     while(!(cond)) { \
       if(++spins_ < 200) sched_yield(); else usleep(50); \
-      if((spins_ & 63) == 0 && raw_us() - t0_ > G_TIMEOUT_US) { __atomic_add_fetch(&g_gate_timeouts, 1, __ATOMIC_RELAXED); break; } \
+      if((spins_ & 15) == 0 && raw_us() - t0_ > (limit_us)) { __atomic_add_fetch(&g_gate_timeouts, 1, __ATOMIC_RELAXED); break; } \
     } } while(0)
+#define GATE_WAIT(cond) GATE_WAIT_T(cond, G_TIMEOUT_US)
 
 static void run_action(int id, Rule& r)
 {
@@ -149,7 +151,7 @@ static void run_action(int id, Rule& r)
     if(r.a1 >= 0 && r.a1 < G_MAXSLOTS) {
       Slot& s = g_slots[r.a1];
       __atomic_add_fetch(&s.captured, 1, __ATOMIC_SEQ_CST);
-      GATE_WAIT(__atomic_load_n(&s.released, __ATOMIC_SEQ_CST));
+      GATE_WAIT_T(__atomic_load_n(&s.released, __ATOMIC_SEQ_CST), (r.a2 > 1 ? r.a2 : (long)G_TIMEOUT_US));
     }
     break;
   case A_RELEASE:
@@ -225,12 +227,55 @@ extern "C" int __wrap_pthread_cond_wait(pthread_cond_t* c, pthread_mutex_t* m)
   return r;
 }
 
-// libnstd's pthread_cond_broadcast calls (last statement of Signal::set) come here
+// ---- lifetime of the Future objects ----------------------------------------------------------------
+// Every Future the harness creates is registered with its address range while it is alive: from
+// `new` until `delete` has RETURNED.  A pthread_cond_broadcast of libnstd on a condition variable
+// that is neither one of the pool's two signals nor inside a live Future is a use of a destroyed
+// Future's Signal (the property: the destructor returns only after the execution has completed,
+// which includes the completion handshake).  ASan cannot see it (glibc is not instrumented).
+enum { LIVE_MAX = 64 };
+struct LiveFut { const char* lo; const char* hi; unsigned long gen; };
+static LiveFut g_live[LIVE_MAX];
+static volatile int g_live_lock = 0;
+static volatile unsigned long g_live_gen = 0;
+static volatile int g_live_on = 0;          // 1 while the futures of a case exist
+static volatile int g_late_bcast = 0;       // broadcasts on a destroyed Future's signal in this case
+
+static inline void live_lock() { while(__atomic_exchange_n(&g_live_lock, 1, __ATOMIC_ACQUIRE)) sched_yield(); }
+static inline void live_unlock() { __atomic_store_n(&g_live_lock, 0, __ATOMIC_RELEASE); }
+static void live_add(int f, const void* p, size_t n)
+{
+  live_lock(); g_live[f].lo = (const char*)p; g_live[f].hi = (const char*)p + n; g_live[f].gen = ++g_live_gen; live_unlock();
+}
+static void live_remove(int f) { live_lock(); g_live[f].lo = g_live[f].hi = 0; g_live[f].gen = 0; live_unlock(); }
+static unsigned long live_find(const void* c)   // generation of the live Future that contains c, 0 = none
+{
+  unsigned long g = 0;
+  live_lock();
+  for(int i = 0; i < LIVE_MAX; ++i) if(g_live[i].lo && (const char*)c >= g_live[i].lo && (const char*)c < g_live[i].hi) { g = g_live[i].gen; break; }
+  live_unlock();
+  return g;
+}
+
+// libnstd's pthread_cond_broadcast calls (Signal::set) come here
 extern "C" int __real_pthread_cond_broadcast(pthread_cond_t*);
 extern "C" int __wrap_pthread_cond_broadcast(pthread_cond_t* c)
 {
+  int obj = classify_cond(c);
+  if(!obj && g_live_on) {
+    unsigned long g0 = live_find(c);
+    if(g_rules_on) gate_point(W_PREBC, O_FUT, 0, 0);
+    unsigned long g1 = live_find(c);
+    if(!g0 || g1 != g0) {
+      // the Future this thread is completing has been destroyed: do not touch the freed memory
+      __atomic_add_fetch(&g_late_bcast, 1, __ATOMIC_SEQ_CST);
+      if(g_trace) fprintf(stderr, "#late broadcast role=%d cond=%p gen %lu -> %lu\n", tl_role, (void*)c, g0, g1);
+      return 0;
+    }
+  }
+  else if(obj && g_rules_on) gate_point(W_PREBC, obj, 0, 0);
   int r = __real_pthread_cond_broadcast(c);
-  if(g_rules_on) { int obj = classify_cond(c); gate_point(W_BCAST, obj ? obj : O_FUT, 0, 0); }
+  if(g_rules_on) gate_point(W_BCAST, obj ? obj : O_FUT, 0, 0);
   return r;
 }
 
@@ -274,7 +319,7 @@ extern "C" int clock_gettime(clockid_t id, struct timespec* ts)
 
 // ---- workload -----------------------------------------------------------------------------------
 enum { MAXF = 64, MAXC = 16, MAXOPS = 4096 };
-enum Kind { K_START, K_ABORT, K_JOIN, K_GET, K_CHECK, K_PAUSE, K_GATE };
+enum Kind { K_START, K_ABORT, K_JOIN, K_GET, K_CHECK, K_PAUSE, K_GATE, K_DESTROY };
 enum GateVerb { GV_NONE = 0, GV_RULE, GV_RELEASE, GV_AWAIT, GV_SLEPT, GV_MARK };
 
 struct CallRec {
@@ -282,16 +327,20 @@ struct CallRec {
   volatile long long arg_seen;
   volatile unsigned long done_stamp;
   int work;
-  Future<int64>* fut;
+  int slot;            // the harness slot of the Future this call was started on
+  long long arg_in;    // the argument (for the functions that do not receive it as a parameter)
+  volatile int bad;    // a further parameter did not arrive as it was passed
+  CallRec* child;      // work >= 4: record of the call this function starts on futs[work - 4]
 };
 
 struct Op {
   int client, kind, f, work; long long arg; long pause;
+  int variant;       // start: 0-5 free function of that arity, 10-14 member function of arity 0-4
   int gverb; long ga[4]; Rule grule; int gid;   // gate ops
   // observations
   long n;            // serial of the call this op refers to (0 = none)
   int after;         // join/get: 1 = completion stamp precedes return and ran == 1 at return
-  long long res;     // get
+  long long res;     // get; start with work >= 4: the child's converted result
   char st; int ab;   // check
   CallRec* rec;      // start
 };
@@ -300,25 +349,139 @@ static Op ops[MAXOPS];
 static int nops;
 static int cfg_min, cfg_max, cfg_q, cfg_clients, cfg_lazy, cfg_perturb;
 static volatile unsigned long g_seq;
-static Future<int64>* futs[MAXF];
 static long serial[MAXF];        // per future: number of starts so far (owner thread only)
 static CallRec* active[MAXF];    // per future: record of the current call (owner thread only)
 static pthread_barrier_t bar;
 
 static inline int64 fn(int64 a) { return a * 7 + 3; }
 
-static int64 jobfn(CallRec* r, int64 arg)
+// A harness slot holds a Future<int64>; slots 8..15 hold a Future<void> (no result conversion).
+static Future<int64>* futs[MAXF];
+static Future<void>* vfuts[MAXF];
+static inline bool is_void(int f) { return f >= 8 && f < 16; }
+static inline bool sl_aborting(int f) { return is_void(f) ? vfuts[f]->isAborting() : futs[f]->isAborting(); }
+static inline void sl_join(int f) { if(is_void(f)) vfuts[f]->join(); else futs[f]->join(); }
+static inline void sl_abort(int f) { if(is_void(f)) vfuts[f]->abort(); else futs[f]->abort(); }
+static inline char sl_state(int f)
+{
+  if(is_void(f)) return vfuts[f]->isFinished() ? 'F' : vfuts[f]->isAborted() ? 'A' : (vfuts[f]->_state == Future<void>::runningState ? 'R' : 'I');
+  return futs[f]->isFinished() ? 'F' : futs[f]->isAborted() ? 'A' : (futs[f]->future._state == Future<void>::runningState ? 'R' : 'I');
+}
+static void sl_new(int f)
+{
+  if(is_void(f)) { vfuts[f] = new Future<void>; live_add(f, vfuts[f], sizeof(Future<void>)); }
+  else { futs[f] = new Future<int64>; live_add(f, futs[f], sizeof(Future<int64>)); }
+}
+static void sl_delete(int f)
+{
+  if(is_void(f)) { delete vfuts[f]; vfuts[f] = 0; } else { delete futs[f]; futs[f] = 0; }
+  live_remove(f);
+}
+
+static int64 jobfn(CallRec* r, int64 arg);
+static int64 job_body(CallRec* r, int64 arg)
 {
   __atomic_add_fetch(&r->runs, 1, __ATOMIC_SEQ_CST);
   r->arg_seen = arg;
+  if(g_rules_on) gate_point(W_JOB, O_FUT, r->work, 0);
   switch(r->work) {
   case 1: for(int i = 0; i < 3; ++i) sched_yield(); break;
   case 2: usleep(150); break;
-  case 3: while(!r->fut->isAborting()) sched_yield(); break;
-  default: break;
+  case 3: while(!sl_aborting(r->slot)) sched_yield(); break;
+  default:
+    // work >= 4: the started function starts another future itself ("started from any threads")
+    // and returns without waiting for it
+    if(r->work >= 4 && r->work - 4 < MAXF && r->child)
+      futs[r->work - 4]->start(&jobfn, r->child, (int64)(arg + 1));
+    break;
   }
   r->done_stamp = __atomic_add_fetch(&g_seq, 1, __ATOMIC_SEQ_CST);
   return fn(arg);
+}
+
+// The started functions: free functions of arity 0..5 and member functions of arity 0..4, each
+// returning int64 (Future<int64>) or nothing (Future<void>).  Parameter 1 is the call record,
+// parameter 2 the argument, parameters 3.. are argument + 1, + 2, … and are checked on arrival.
+// Arity 0 finds its record through a per-slot trampoline, arity 1 reads the argument from the record.
+static CallRec* cur0[16];
+#define EXTRA(r, a, x, k) do { if((x) != (a) + (k)) (r)->bad = 1; } while(0)
+static int64 jobfn(CallRec* r, int64 a) { return job_body(r, a); }
+static int64 jf1(CallRec* r) { return job_body(r, r->arg_in); }
+static int64 jf3(CallRec* r, int64 a, int64 b) { EXTRA(r, a, b, 1); return job_body(r, a); }
+static int64 jf4(CallRec* r, int64 a, int64 b, int64 c) { EXTRA(r, a, b, 1); EXTRA(r, a, c, 2); return job_body(r, a); }
+static int64 jf5(CallRec* r, int64 a, int64 b, int64 c, int64 d) { EXTRA(r, a, b, 1); EXTRA(r, a, c, 2); EXTRA(r, a, d, 3); return job_body(r, a); }
+template <int F> static int64 jf0() { CallRec* r = cur0[F]; return job_body(r, r->arg_in); }
+static void vf0x(CallRec* r) { job_body(r, r->arg_in); }
+static void vf1(CallRec* r) { job_body(r, r->arg_in); }
+static void vf2(CallRec* r, int64 a) { job_body(r, a); }
+static void vf3(CallRec* r, int64 a, int64 b) { EXTRA(r, a, b, 1); job_body(r, a); }
+static void vf4(CallRec* r, int64 a, int64 b, int64 c) { EXTRA(r, a, b, 1); EXTRA(r, a, c, 2); job_body(r, a); }
+static void vf5(CallRec* r, int64 a, int64 b, int64 c, int64 d) { EXTRA(r, a, b, 1); EXTRA(r, a, c, 2); EXTRA(r, a, d, 3); job_body(r, a); }
+template <int F> static void vf0() { vf0x(cur0[F]); }
+typedef int64 (*jf0_t)();
+typedef void (*vf0_t)();
+static const jf0_t jf0_tab[16] = { jf0<0>, jf0<1>, jf0<2>, jf0<3>, jf0<4>, jf0<5>, jf0<6>, jf0<7>, jf0<8>, jf0<9>, jf0<10>, jf0<11>, jf0<12>, jf0<13>, jf0<14>, jf0<15> };
+static const vf0_t vf0_tab[16] = { vf0<0>, vf0<1>, vf0<2>, vf0<3>, vf0<4>, vf0<5>, vf0<6>, vf0<7>, vf0<8>, vf0<9>, vf0<10>, vf0<11>, vf0<12>, vf0<13>, vf0<14>, vf0<15> };
+
+enum { OBJ_MAGIC = 0x5eed5eed };
+struct Obj {
+  long pad; int64 magic; CallRec* rec;
+  void chk(CallRec* r) { if(magic != OBJ_MAGIC) r->bad = 1; }
+  int64 m0() { chk(rec); return job_body(rec, rec->arg_in); }
+  int64 m1(CallRec* r) { chk(r); return job_body(r, r->arg_in); }
+  int64 m2(CallRec* r, int64 a) { chk(r); return job_body(r, a); }
+  int64 m3(CallRec* r, int64 a, int64 b) { chk(r); EXTRA(r, a, b, 1); return job_body(r, a); }
+  int64 m4(CallRec* r, int64 a, int64 b, int64 c) { chk(r); EXTRA(r, a, b, 1); EXTRA(r, a, c, 2); return job_body(r, a); }
+  void v0() { chk(rec); job_body(rec, rec->arg_in); }
+  void v1(CallRec* r) { chk(r); job_body(r, r->arg_in); }
+  void v2(CallRec* r, int64 a) { chk(r); job_body(r, a); }
+  void v3(CallRec* r, int64 a, int64 b) { chk(r); EXTRA(r, a, b, 1); job_body(r, a); }
+  void v4(CallRec* r, int64 a, int64 b, int64 c) { chk(r); EXTRA(r, a, b, 1); EXTRA(r, a, c, 2); job_body(r, a); }
+};
+static Obj objs[MAXF];
+
+// start call r on slot f through the overload chosen by `variant`
+static void sl_start(int f, int variant, CallRec* r, int64 a)
+{
+  Obj& ob = objs[f];
+  ob.magic = OBJ_MAGIC;
+  // arity 0: the function finds its record through the slot, so the previous call on the slot must
+  // be over before the record is replaced (start() itself would join only afterwards)
+  if(variant == 0 || variant == 10) sl_join(f);
+  if(variant == 10) ob.rec = r;
+  if(variant == 0 && f < 16) cur0[f] = r;
+  if(variant == 0 && f >= 16) variant = 2;
+  if(is_void(f)) {
+    Future<void>& v = *vfuts[f];
+    switch(variant) {
+    case 0: v.start(vf0_tab[f]); break;
+    case 1: v.start(&vf1, r); break;
+    case 3: v.start(&vf3, r, a, (int64)(a + 1)); break;
+    case 4: v.start(&vf4, r, a, (int64)(a + 1), (int64)(a + 2)); break;
+    case 5: v.start(&vf5, r, a, (int64)(a + 1), (int64)(a + 2), (int64)(a + 3)); break;
+    case 10: v.start(ob, &Obj::v0); break;
+    case 11: v.start(ob, &Obj::v1, r); break;
+    case 12: v.start(ob, &Obj::v2, r, a); break;
+    case 13: v.start(ob, &Obj::v3, r, a, (int64)(a + 1)); break;
+    case 14: v.start(ob, &Obj::v4, r, a, (int64)(a + 1), (int64)(a + 2)); break;
+    default: v.start(&vf2, r, a); break;
+    }
+  } else {
+    Future<int64>& v = *futs[f];
+    switch(variant) {
+    case 0: v.start(jf0_tab[f]); break;
+    case 1: v.start(&jf1, r); break;
+    case 3: v.start(&jf3, r, a, (int64)(a + 1)); break;
+    case 4: v.start(&jf4, r, a, (int64)(a + 1), (int64)(a + 2)); break;
+    case 5: v.start(&jf5, r, a, (int64)(a + 1), (int64)(a + 2), (int64)(a + 3)); break;
+    case 10: v.start(ob, &Obj::m0); break;
+    case 11: v.start(ob, &Obj::m1, r); break;
+    case 12: v.start(ob, &Obj::m2, r, a); break;
+    case 13: v.start(ob, &Obj::m3, r, a, (int64)(a + 1)); break;
+    case 14: v.start(ob, &Obj::m4, r, a, (int64)(a + 1), (int64)(a + 2)); break;
+    default: v.start(&jobfn, r, a); break;   // joins the previous call first
+    }
+  }
 }
 
 // ---- watchdog report: what the pool looks like when a case does not finish ---------------------
@@ -379,7 +542,7 @@ static void parse_gate(Op& o, vh::Tok& t)
     o.gid = atoi(t.v[4]);
     const char* w = t.v[5];
     r.who = !strcmp(w, "w") ? 0 : !strcmp(w, "m") ? 100 : w[0] == 'c' ? 1 + atoi(w + 1) : -1;
-    r.when = !strcmp(t.v[6], "pre") ? W_PRE : !strcmp(t.v[6], "post") ? W_POST : !strcmp(t.v[6], "wake") ? W_WAKE : !strcmp(t.v[6], "bcast") ? W_BCAST : 0;
+    r.when = !strcmp(t.v[6], "pre") ? W_PRE : !strcmp(t.v[6], "post") ? W_POST : !strcmp(t.v[6], "wake") ? W_WAKE : !strcmp(t.v[6], "bcast") ? W_BCAST : !strcmp(t.v[6], "prebc") ? W_PREBC : !strcmp(t.v[6], "job") ? W_JOB : 0;
     r.obj = obj_of(t.v[7]);
     r.opnd_any = !strcmp(t.v[8], "*"); r.opnd = atol(t.v[8]);
     r.res_any = !strcmp(t.v[9], "*"); r.res = atol(t.v[9]);
@@ -434,11 +597,17 @@ static void op(long, long, vh::Tok& t)
   o.client = atoi(t.v[1]);
   const char* k = t.v[2];
   o.f = t.n > 3 ? atoi(t.v[3]) : 0;
-  if(!strcmp(k, "start") && t.n >= 6) { o.kind = K_START; o.arg = atoll(t.v[4]); o.work = atoi(t.v[5]); }
+  if(!strncmp(k, "start", 5) && t.n >= 6) {
+    // start = free function of arity 2; startf<N> = free function of arity N; startm<N> = member function of arity N
+    o.kind = K_START; o.arg = atoll(t.v[4]); o.work = atoi(t.v[5]);
+    o.variant = k[5] == 'f' ? atoi(k + 6) : k[5] == 'm' ? 10 + atoi(k + 6) : 2;
+    if(o.variant < 0 || o.variant > 14 || (o.variant > 5 && o.variant < 10)) return;
+  }
   else if(!strcmp(k, "abort")) o.kind = K_ABORT;
   else if(!strcmp(k, "join")) o.kind = K_JOIN;
   else if(!strcmp(k, "get")) o.kind = K_GET;
   else if(!strcmp(k, "check")) o.kind = K_CHECK;
+  else if(!strcmp(k, "destroy")) o.kind = K_DESTROY;
   else if(!strcmp(k, "pause")) { o.kind = K_PAUSE; o.pause = o.f; o.f = 0; }
   else if(!strcmp(k, "gate")) { o.kind = K_GATE; o.f = 0; parse_gate(o, t); }
   else return;
@@ -450,8 +619,21 @@ static void op(long, long, vh::Tok& t)
 // aborted before anything waits for it; a future belongs to the first client that names it
 static bool valid()
 {
-  int owner[MAXF]; bool act3[MAXF];
-  for(int f = 0; f < MAXF; ++f) { owner[f] = -1; act3[f] = false; }
+  int owner[MAXF]; bool act3[MAXF]; bool child[MAXF]; bool named[MAXF];
+  for(int f = 0; f < MAXF; ++f) { owner[f] = -1; act3[f] = false; child[f] = false; named[f] = false; }
+  // a start with work >= 4 names the slot (work - 4, in 16..63) of the future its function starts:
+  // that slot is used by nothing else
+  for(int i = 0; i < nops; ++i) {
+    Op& o = ops[i];
+    if(o.kind == K_PAUSE || o.kind == K_GATE) continue;
+    named[o.f] = true;
+    if(o.kind == K_START && o.work >= 4) {
+      int g = o.work - 4;
+      if(g < 16 || g >= MAXF || child[g]) return false;
+      child[g] = true;
+    }
+  }
+  for(int f = 0; f < MAXF; ++f) if(child[f] && named[f]) return false;
   for(int i = 0; i < nops; ++i) {
     Op& o = ops[i];
     if(o.client >= cfg_clients) return false;
@@ -468,7 +650,8 @@ static bool valid()
       act3[o.f] = (o.work == 3);
     }
     else if(o.kind == K_ABORT) act3[o.f] = false;
-    else if(o.kind == K_JOIN || o.kind == K_GET) { if(act3[o.f]) return false; }
+    else if(o.kind == K_JOIN || o.kind == K_GET || o.kind == K_DESTROY) { if(act3[o.f]) return false; }
+    if(o.kind == K_GET && is_void(o.f)) return false;     // a Future<void> has no result conversion
   }
   for(int f = 0; f < MAXF; ++f) if(act3[f]) return false;
   return true;
@@ -496,22 +679,30 @@ static void* client(void* p)
     switch(o.kind) {
     case K_START: {
       CallRec* r = (CallRec*)calloc(1, sizeof(CallRec));
-      r->work = o.work; r->fut = futs[o.f];
+      r->work = o.work; r->slot = o.f; r->arg_in = o.arg;
+      if(o.work >= 4) { r->child = (CallRec*)calloc(1, sizeof(CallRec)); r->child->slot = o.work - 4; r->child->arg_in = o.arg + 1; }
       o.rec = r;
-      futs[o.f]->start(&jobfn, r, (int64)o.arg);   // joins the previous call first
+      sl_start(o.f, o.variant, r, (int64)o.arg);   // joins the previous call first
       o.n = ++serial[o.f];
       active[o.f] = r;
       break; }
-    case K_ABORT: futs[o.f]->abort(); o.n = serial[o.f]; break;
-    case K_JOIN: futs[o.f]->join(); stamp_join(o); break;
+    case K_ABORT: sl_abort(o.f); o.n = serial[o.f]; break;
+    case K_JOIN: sl_join(o.f); stamp_join(o); break;
     case K_GET: { const int64& v = *futs[o.f]; stamp_join(o); o.res = v; break; }
     case K_CHECK:
       o.n = serial[o.f];
-      o.st = futs[o.f]->isFinished() ? 'F' : futs[o.f]->isAborted() ? 'A' : (futs[o.f]->future._state == Future<void>::runningState ? 'R' : 'I');
-      o.ab = futs[o.f]->isAborting() ? 1 : 0;
+      o.st = sl_state(o.f);
+      o.ab = sl_aborting(o.f) ? 1 : 0;
       break;
     case K_PAUSE: if(o.pause <= 0) sched_yield(); else usleep((useconds_t)o.pause * 100); break;
     case K_GATE: exec_gate(o); break;
+    case K_DESTROY: {
+      // ~Future joins; the object is gone when delete returns; a new object takes the slot
+      sl_delete(o.f);
+      stamp_join(o);
+      sl_new(o.f);
+      serial[o.f] = 0;
+      break; }
     }
   }
   return 0;
@@ -525,7 +716,9 @@ static void end(long c)
     P::_threadPool = new P::ThreadPool(cfg_min, cfg_max, cfg_q);
   g_seq = 0;
   g_perturb = cfg_perturb;
-  for(int f = 0; f < MAXF; ++f) { futs[f] = new Future<int64>; serial[f] = 0; active[f] = 0; }
+  g_late_bcast = 0;
+  for(int f = 0; f < MAXF; ++f) { sl_new(f); serial[f] = 0; active[f] = 0; }
+  g_live_on = 1;
   pthread_t th[MAXC];
   g_phase = 1;
   pthread_barrier_init(&bar, 0, cfg_clients);
@@ -535,11 +728,22 @@ static void end(long c)
   gates_off();
   // the destructor joins what the scripts left running
   g_phase = 2;
-  for(int f = 0; f < MAXF; ++f) { delete futs[f]; futs[f] = 0; }
+  // futures started by started functions: wait for the starting call, then take the result
+  bool nested = false;
+  for(int i = 0; i < nops; ++i) if(ops[i].kind == K_START && ops[i].work >= 4) nested = true;
+  if(nested) {
+    for(int i = 0; i < nops; ++i) if(ops[i].kind != K_PAUSE && ops[i].kind != K_GATE) sl_join(ops[i].f);
+    for(int i = 0; i < nops; ++i) if(ops[i].kind == K_START && ops[i].work >= 4) ops[i].res = *futs[ops[i].work - 4];
+  }
+  for(int f = 0; f < MAXF; ++f) sl_delete(f);
   for(int i = 0; i < nops; ++i) {
     Op& o = ops[i];
     switch(o.kind) {
-    case K_START: printf("%ld start %d %d %ld | ran %d arg %lld\n", c, o.client, o.f, o.n, o.rec->runs, (long long)o.rec->arg_seen); break;
+    case K_START:
+      printf("%ld start %d %d %ld | ran %d arg %lld\n", c, o.client, o.f, o.n, o.rec->runs, o.rec->bad ? -777777777LL : (long long)o.rec->arg_seen);
+      if(o.work >= 4)
+        printf("%ld nested %d %ld %d | ran %d arg %lld res %lld\n", c, o.f, o.n, o.work - 4, o.rec->child->runs, (long long)o.rec->child->arg_seen, o.res);
+      break;
     case K_ABORT: printf("%ld abort %d %d %ld\n", c, o.client, o.f, o.n); break;
     case K_JOIN:
       if(o.after < 0) printf("%ld join %d %d - | after -\n", c, o.client, o.f);
@@ -551,6 +755,10 @@ static void end(long c)
       break;
     case K_CHECK: printf("%ld check %d %d %ld | st %c ab %d\n", c, o.client, o.f, o.n, o.st, o.ab); break;
     case K_PAUSE: case K_GATE: printf("%ld pause %d\n", c, o.client); break;
+    case K_DESTROY:
+      if(o.after < 0) printf("%ld destroy %d %d - | after -\n", c, o.client, o.f);
+      else printf("%ld destroy %d %d %ld | after %d\n", c, o.client, o.f, o.n, o.after);
+      break;
     }
   }
   // pool counters: the number of run() calls is schedule independent, the worker count is bounded
@@ -559,12 +767,25 @@ static void end(long c)
            (P::_threadPool->_threadCount <= P::_threadPool->_maxThreads) ? 1 : 0);
     printf("#pool %ld pushed=%lu processed=%lu threads=%lu points=%lu gate_timeouts=%d\n", c, (unsigned long)P::_threadPool->_pushedJobs,
            (unsigned long)P::_threadPool->_processedJobs, (unsigned long)P::_threadPool->_threadCount, (unsigned long)g_points, (int)g_gate_timeouts);
-  } else
+    // quiescence: every future has been joined, so every job has run; the workers count it as
+    // processed right after, and a shrink request still in the ring is on its way to a woken worker
+    P::ThreadPool* tp = P::_threadPool;
+    long long t0 = raw_us();
+    while(!(tp->_queue._head == tp->_queue._tail && tp->_processedJobs == tp->_pushedJobs) && raw_us() - t0 < 2000000) usleep(50);
+    if(tp->_queue._head == tp->_queue._tail && tp->_processedJobs == tp->_pushedJobs) printf("%ld quiet 1\n", c);
+    else printf("%ld quiet 0 head=%lu tail=%lu pushed=%lu processed=%lu\n", c, (unsigned long)tp->_queue._head, (unsigned long)tp->_queue._tail,
+                (unsigned long)tp->_pushedJobs, (unsigned long)tp->_processedJobs);
+  } else {
     printf("%ld pool pushed 0 tc_ok 1\n", c);
-  for(int i = 0; i < nops; ++i) if(ops[i].rec) { free(ops[i].rec); ops[i].rec = 0; }
+    printf("%ld quiet 1\n", c);
+  }
+  for(int i = 0; i < nops; ++i) if(ops[i].rec) { if(ops[i].rec->child) free(ops[i].rec->child); free(ops[i].rec); ops[i].rec = 0; }
   // retire the pool (its destructor pushes one null job per worker and joins them)
   g_phase = 3;
   if(P::_threadPool) { delete P::_threadPool; P::_threadPool = 0; }
+  // all workers have ended: every completion handshake is over
+  g_live_on = 0;
+  printf("%ld lifetime late %d\n", c, (int)g_late_bcast);
   g_perturb = 0; g_phase = 0;
 }
 
